@@ -383,7 +383,7 @@ def xml_json(el):
     return [el.tag, [[k, v] for k, v in el.attrib.items()], (el.text or "").strip(), [xml_json(c) for c in el]]
 
 
-REAL_KEYS = {"x", "y", "l", "w", "o", "r", "v", "lo", "hi"}
+REAL_KEYS = {"x", "y", "l", "w", "o", "r", "v", "lo", "hi", "dt", "lat", "lon", "rot", "scaling"}
 SET_KEYS = {"types", "oneWay", "bidir", "signs", "lights", "signRefs", "lightRefs", "lanelets", "right", "straight", "left",
             "crossings", "pred", "succ"}
 
@@ -403,26 +403,63 @@ def canon_doc(j, key=None):
     return j
 
 
+def m_location(R, loc):
+    if loc is None:
+        return None
+    g, e = loc.geo_transformation, loc.environment
+    return {"geoNameId": int(loc.geo_name_id), "lat": R(loc.gps_latitude), "lon": R(loc.gps_longitude),
+            "geo": None if g is None else {
+                "ref": g.geo_reference,
+                "add": None if g.x_translation is None else {"x": R(g.x_translation), "y": R(g.y_translation), "rot": R(g.z_rotation),
+                                                              "scaling": R(g.scaling)}},
+            "env": None if e is None else {"hours": int(e.time.hours), "minutes": int(e.time.minutes), "timeOfDay": e.time_of_day.value,
+                                            "weather": e.weather.value, "underground": e.underground.value}}
+
+
+def m_file(R, sc, pps, tags):
+    return {"header": {"dt": R(sc.dt), "author": sc.author, "affiliation": sc.affiliation, "source": sc.source,
+                       "benchmarkId": str(sc.scenario_id)},
+            "location": m_location(R, sc.location), "tags": tags, "body": m_doc(R, sc, pps)}
+
+
+def file_cfg(d, fix, pos, today):
+    from commonroad.scenario.state import SpecificStateClasses
+    from commonroad.scenario.traffic_sign import SupportedTrafficSignCountry, TrafficSignIDCountries
+    if "classes" not in _CFG:
+        _CFG["classes"] = [list(c().attributes) for c in SpecificStateClasses]
+    if "tables" not in _CFG:
+        _CFG["tables"] = [[c, [[m.value for m in en], en.MAX_SPEED.value if hasattr(en, "MAX_SPEED") else None]]
+                          for c, en in TrafficSignIDCountries.items()]
+        _CFG["countries"] = [c.value for c in SupportedTrafficSignCountry]
+    return {"P": {"d": d, "fix": fix, "pos": [list(x) for x in pos]}, "classes": _CFG["classes"], "countries": _CFG["countries"],
+            "tables": _CFG["tables"], "today": today}
+
+
 def correspond(ctx, case, spec, d, path, sc, pps, sc2, pps2):
-    """model encode vs the written file; model decode of the written file vs what the reader returned; model round trip vs norm"""
+    """whole file: model encode vs the written tree; model decode of the written tree vs what the reader returned;
+    model round trip vs norm (the statement of C01_xml_roundtrip_whole_file, executed)"""
     from lxml import etree
-    country = spec["scenario_id"]["country"]
+    from commonroad.scenario.scenario import Tag
     R = Reals()
-    doc = m_doc(R, sc, pps)
-    cfg = model_cfg(country, d, R.fix(d), R.pos())
+    # the writer iterates the scenario's tag set (`for tag in tags`): same object, same order
+    fil = m_file(R, sc, pps, [t.value for t in sc.tags])
     root = etree.parse(path).getroot()
-    kids = [xml_json(c) for c in root]
-    body = [k for k in kids if k[0] not in ("location", "scenarioTags")]
-    enc = ctx.driver.ask("C01", "encode", {"cfg": cfg, "doc": doc})
-    ctx.compare(case, {"ok": body}, enc, "XMLFileWriter body elements vs CR.X.encodeDoc")
-    dec = ctx.driver.ask("C01", "decode", {"cfg": cfg, "kids": kids})
+    fcfg = file_cfg(d, R.fix(d), R.pos(), root.get("date"))
+    tree = xml_json(root)
+    enc = ctx.driver.ask("C01", "encode_file", {"fcfg": fcfg, "file": fil})
+    ctx.compare(case, {"ok": tree}, enc, "XMLFileWriter <commonRoad> tree vs CR.X.encodeFile")
+    dec = ctx.driver.ask("C01", "decode_file", {"fcfg": fcfg, "xml": tree})
     R2 = Reals()
-    back = m_doc(R2, sc2, pps2)
+    back = m_file(R2, sc2, pps2, [t.value for t in Tag if t in sc2.tags])
     ctx.compare(case, {"ok": canon_doc(back)}, {"ok": canon_doc(dec["ok"])} if "ok" in dec else dec,
-                "XMLFileReader result vs CR.X.decodeDoc of the written file")
-    rt = ctx.driver.ask("C01", "roundtrip", {"cfg": cfg, "doc": doc})
-    nm = ctx.driver.ask("C01", "norm", {"cfg": cfg, "doc": doc})
-    ctx.compare(case, rt, nm, "CR.X.decodeDoc (encodeDoc x) vs CR.X.normDoc x (the statement of C01_xml_roundtrip, executed)")
+                "XMLFileReader result vs CR.X.decodeFile of the written tree")
+    rt = ctx.driver.ask("C01", "roundtrip_file", {"fcfg": fcfg, "file": fil})
+    nm = ctx.driver.ask("C01", "norm_file", {"fcfg": fcfg, "file": fil})
+    ctx.compare(case, rt, nm, "CR.X.decodeFile (encodeFile x) vs CR.X.normFile x (the statement of C01_xml_roundtrip_whole_file, executed)")
+    import datetime
+    today = datetime.datetime.today()
+    if root.get("date") not in (today.strftime("%Y-%m-%d"), (today - datetime.timedelta(days=1)).strftime("%Y-%m-%d")):
+        ctx.compare(case, root.get("date"), today.strftime("%Y-%m-%d"), "date attribute vs today's date")
 
 
 # ------------------------------------------------------------------------------------------------ run
